@@ -1,15 +1,18 @@
-/- Helper lemmas for C18: the phases of `pypyr.cli.main` and its handler ladder. -/
+/- Helper lemmas for C18: the phases of `pypyr.cli.main`, its handler ladder, and what leaves it. -/
 import PypyrModel.Cli
 
 namespace Pypyr.Cli
 
 /-! ### the ladder as data -/
 
-/-- Does an `except` clause naming these classes catch what was raised? `KeyboardInterrupt` derives
-    from `BaseException` only; everything else the model distinguishes is an `Exception`. -/
+/-- Does an `except` clause naming these classes catch what was raised? `KeyboardInterrupt`,
+    `SystemExit` and the other non-`Exception` classes derive from `BaseException` only; everything
+    else the model distinguishes is an `Exception`. -/
 def catches (classes : List String) : Raised → Bool
   | .nothing => false
   | .keyboardInterrupt => classes.any fun c => c = "KeyboardInterrupt" || c = "BaseException"
+  | .systemExit _ => classes.any fun c => c = "SystemExit" || c = "BaseException"
+  | .baseOther _ _ => classes.any fun c => c = "BaseException"
   | _ => classes.any fun c => c = "Exception" || c = "BaseException"
 
 /-- Value of the expression a handler returns (the two the source uses; `signal.SIGINT` is 2). -/
@@ -24,14 +27,15 @@ def ladderRet : List (List String × String) → Raised → Option (Option Nat)
   | [], _ => none
   | (cs, ret) :: hs, r => if catches cs r then some (evalRet ret) else ladderRet hs r
 
-/-- The model's ladder `cliMain` is the ladder `mainHandlers` read as data. -/
+/-- The model's ladder `cliMain` is the ladder `mainHandlers` read as data: caught exactly when
+    `cliMain` has a result, and then with that return value. -/
 theorem ladderRet_mainHandlers (x : Raised) (hx : x ≠ .nothing) :
-    ladderRet mainHandlers x = some (cliMain x).ret := by
+    ladderRet mainHandlers x = (cliMain x).map (·.ret) := by
   cases x <;> first | exact absurd rfl hx | simp [ladderRet, mainHandlers, catches, evalRet, cliMain]
 
 /-- What the `Exception` handler of the model writes is `mainStderrWrites` evaluated. -/
 theorem renderWrites_main (ty msg : String) :
-    renderWrites ty msg mainStderrWrites = some (cliMain (.error ty msg)).stderr := by
+    renderWrites ty msg mainStderrWrites = (cliMain (.error ty msg)).map (·.stderr) := by
   have h1 : ("str(e)" = "type(e).__name__") = False := by decide +kernel
   simp [-String.reduceAppend, renderWrites, renderPieces, mainStderrWrites, cliMain, h1, String.append_assoc]
 
@@ -72,6 +76,35 @@ theorem seqRaises_first (f : Faults) (pre post : List Phase) (p : Phase)
     rw [List.cons_append, seqRaises_cons_nothing f a _ (hpre a (by simp))]
     exact ih (fun q hq => hpre q (by simp [hq]))
 
+/-- What a sequence raises is nothing or what one of its calls raises. -/
+theorem seqRaises_mem (f : Faults) (ps : List Phase) :
+    seqRaises f ps = .nothing ∨ ∃ p ∈ ps, seqRaises f ps = callRaises f p := by
+  induction ps with
+  | nil => exact .inl rfl
+  | cons p ps ih =>
+    by_cases h : callRaises f p = .nothing
+    · rw [seqRaises_cons_nothing f p ps h]
+      rcases ih with ih | ⟨q, hq, ih⟩
+      · exact .inl ih
+      · exact .inr ⟨q, by simp [hq], ih⟩
+    · rw [seqRaises_cons_raises f p ps h]
+      exact .inr ⟨p, by simp, rfl⟩
+
+/-- `Pipeline.run` lets everything but the Stop family through unchanged; in particular it neither
+    produces nor absorbs a `BaseException`. -/
+theorem pipelineRun_isBase (r : Raised) : (pipelineRun r).isBase = r.isBase := by
+  cases r <;> rfl
+
+theorem callRaises_isBase (f : Faults) (p : Phase) : (callRaises f p).isBase = (f p).isBase := by
+  cases p <;> simp [callRaises, pipelineRun_isBase]
+
+/-- If no call raises a `BaseException` other than `KeyboardInterrupt`, the sequence does not. -/
+theorem seqRaises_not_base (f : Faults) (ps : List Phase) (h : ∀ p, (f p).isBase = false) :
+    (seqRaises f ps).isBase = false := by
+  rcases seqRaises_mem f ps with h' | ⟨p, _, h'⟩
+  · rw [h']; rfl
+  · rw [h', callRaises_isBase]; exact h p
+
 /-- The calls of `main` split at any phase: those before it in source order, it, those after. -/
 theorem inTry_split (p : Phase) :
     ∃ pre post, mainShape.inTry = pre ++ p :: post ∧ ∀ q, q ∈ pre ↔ q.idx < p.idx := by
@@ -100,22 +133,35 @@ theorem run_call_never_stop (f : Faults) :
 
 /-! ### the ladder -/
 
-theorem cliMain_status (x : Raised) :
-    (x = .nothing → sysExit (cliMain x).ret = 0) ∧
-    (x = .keyboardInterrupt → sysExit (cliMain x).ret = 130 ∧ (cliMain x).stdout = "\n" ∧ (cliMain x).stderr = "") ∧
-    (∀ ty msg, x = .error ty msg → sysExit (cliMain x).ret = 255 ∧
-        (cliMain x).stderr = "\n" ++ "\x1b[91m" ++ ty ++ ": " ++ msg ++ "\x1b[0;0m" ++ "\n") ∧
-    (x = .stop → sysExit (cliMain x).ret = 255 ∧ (cliMain x).stderr = "\n" ++ "\x1b[91m" ++ "Stop" ++ ": " ++ "" ++ "\x1b[0;0m" ++ "\n") ∧
-    (x = .stopPipeline → sysExit (cliMain x).ret = 255 ∧
-        (cliMain x).stderr = "\n" ++ "\x1b[91m" ++ "StopPipeline" ++ ": " ++ "" ++ "\x1b[0;0m" ++ "\n") ∧
-    (x = .stopStepGroup → sysExit (cliMain x).ret = 255 ∧
-        (cliMain x).stderr = "\n" ++ "\x1b[91m" ++ "StopStepGroup" ++ ": " ++ "" ++ "\x1b[0;0m" ++ "\n") := by
-  cases x <;> simp [cliMain, sysExit]
+/-- What the `try` statement does with each kind of exception. -/
+theorem tryMain_spec (x : Raised) :
+    (x = .nothing → tryMain x = .returned ⟨none, "", ""⟩) ∧
+    (x = .keyboardInterrupt → tryMain x = .returned ⟨some 130, "\n", ""⟩) ∧
+    (∀ ty msg, x = .error ty msg →
+        tryMain x = .returned ⟨some 255, "", "\n" ++ "\x1b[91m" ++ ty ++ ": " ++ msg ++ "\x1b[0;0m" ++ "\n"⟩) ∧
+    (x = .stop → tryMain x = .returned ⟨some 255, "", "\n" ++ "\x1b[91m" ++ "Stop" ++ ": " ++ "" ++ "\x1b[0;0m" ++ "\n"⟩) ∧
+    (x = .stopPipeline →
+        tryMain x = .returned ⟨some 255, "", "\n" ++ "\x1b[91m" ++ "StopPipeline" ++ ": " ++ "" ++ "\x1b[0;0m" ++ "\n"⟩) ∧
+    (x = .stopStepGroup →
+        tryMain x = .returned ⟨some 255, "", "\n" ++ "\x1b[91m" ++ "StopStepGroup" ++ ": " ++ "" ++ "\x1b[0;0m" ++ "\n"⟩) ∧
+    (x.isBase = true → tryMain x = .escaped x) := by
+  cases x <;> simp [tryMain, cliMain, Raised.isBase]
 
-theorem cliMain_status_cases (x : Raised) :
-    sysExit (cliMain x).ret = 0 ∧ x = .nothing ∨
-    sysExit (cliMain x).ret = 130 ∧ x = .keyboardInterrupt ∨
-    sysExit (cliMain x).ret = 255 ∧ x ≠ .nothing ∧ x ≠ .keyboardInterrupt := by
-  cases x <;> simp [cliMain, sysExit]
+/-- The five ways a call of `main` can end, by what its `try` body raised. -/
+theorem tryMain_cases (x : Raised) :
+    ((tryMain x).status = some 0 ∧ x = .nothing) ∨
+    ((tryMain x).status = some 130 ∧ x = .keyboardInterrupt) ∨
+    ((tryMain x).status = some 255 ∧ x.isException = true) ∨
+    (∃ c, x = .systemExit c ∧ tryMain x = .escaped x ∧ (tryMain x).status = some c.status) ∨
+    (∃ ty msg, x = .baseOther ty msg ∧ tryMain x = .escaped x ∧ (tryMain x).status = some 1) := by
+  cases x <;> simp [tryMain, cliMain, Outcome.status, sysExit, Raised.isException]
+
+/-- Without a `BaseException` other than `KeyboardInterrupt`: three ways, and `main` returns. -/
+theorem tryMain_cases_of_not_base (x : Raised) (hb : x.isBase = false) :
+    (∃ m, tryMain x = .returned m) ∧
+    (((tryMain x).status = some 0 ∧ x = .nothing) ∨
+     ((tryMain x).status = some 130 ∧ x = .keyboardInterrupt) ∨
+     ((tryMain x).status = some 255 ∧ x ≠ .nothing ∧ x ≠ .keyboardInterrupt)) := by
+  cases x <;> simp_all [tryMain, cliMain, Outcome.status, sysExit, Raised.isBase]
 
 end Pypyr.Cli
